@@ -106,6 +106,7 @@ func (fv *FV) execStmt(st *State, s ast.Stmt, label string) *State {
 		if x.Init != nil {
 			st = fv.execStmt(st, x.Init, "")
 		}
+		fv.ghostBefore(st, x)
 		c := fv.evalCond(st, x.Cond)
 		if st.guard == "false" {
 			return nil
@@ -720,11 +721,15 @@ func (fv *FV) numberLoops(body *ast.BlockStmt) {
 	fv.ghostLoops = map[*GhostStmt]map[int]bool{}
 	var stack []int
 	var visit func(nd ast.Node)
+	var noteText func(text string)
 	note := func(s ast.Stmt) {
+		noteText(normSpace(fv.srcFull(s)))
+	}
+	noteText = func(text string) {
 		if fv.fc == nil {
 			return
 		}
-		var text string
+		text = normSpace(text)
 		for _, g := range fv.fc.Ghosts {
 			var want string
 			switch {
@@ -734,9 +739,6 @@ func (fv *FV) numberLoops(body *ast.BlockStmt) {
 				want = g.Anchor[7:]
 			default:
 				continue
-			}
-			if text == "" {
-				text = normSpace(fv.srcFull(s))
 			}
 			if normSpace(strings.Trim(strings.TrimSpace(want), "\"")) == text {
 				m := fv.ghostLoops[g]
@@ -778,6 +780,8 @@ func (fv *FV) numberLoops(body *ast.BlockStmt) {
 				note(x)
 			case *ast.IncDecStmt:
 				note(x)
+			case *ast.IfStmt:
+				noteText("if " + fv.src(x.Cond))
 			}
 			return true
 		})
